@@ -69,7 +69,7 @@ def filter (req : Json) : R Reply := do
             (if fname == "flatten" && !holdsFlatDepth after incl then ["<nested component left>"] else [])))
       let namesOk := after.names == gs.names
       return { model, holds := bad.isEmpty && namesOk, info := strsJ bad,
-               hyp := Json.bool (goodCert gs (depthCert gs)) }
+               hyp := Json.bool (wfCert gs) }
 
 def handle (op : String) (req : Json) : R Reply :=
   match op with
